@@ -116,6 +116,15 @@ def _inputs(case):
     return out
 
 
+def _subset(case, t):
+    """names of the connections fed at step t (a strict subset on the generated steps)."""
+    names = list(case["conns"])
+    if t in (case.get("subset_steps") or []) and len(names) > 1:
+        keep = max(1, len(names) - 1 - (t % 2 if len(names) > 2 else 0))
+        return names[:keep] if t % 3 else names[-keep:]
+    return names
+
+
 def hash_name(s):
     return sum(ord(ch) * (i + 1) for i, ch in enumerate(s))
 
@@ -130,7 +139,8 @@ def layer_step(case, layer, xs, t, capture=False):
             return {"n0": r[0]}, {"c0": r[1]}
         return {"n0": r}, None
     if kind == "biclique":
-        r = layer({k: (torch.tensor(v[t]),) for k, v in xs.items()}, capture_intermediate=capture,
+        run = _subset(case, t)
+        r = layer({k: (torch.tensor(v[t]),) for k, v in xs.items() if k in run}, capture_intermediate=capture,
                   neuron_kwargs=({k: nkw for k in case["neurs"]} if nkw else None))
         if capture:
             return dict(r[0]), dict(r[1])
@@ -152,8 +162,9 @@ def model_step(case, comps, xs, t, mem):
         co = C["c0"](torch.tensor(xs["c0"][t]))
         return {"n0": N["n0"](_apply(case["tf"]["c0"], co), **nkw)}, {"c0": co}
     if kind == "biclique":
-        cos = {k: C[k](torch.tensor(xs[k][t])) for k in case["conns"]}
-        comb = _combine_model(case["combine"], [_apply(case["tf"][k], cos[k]) for k in case["conns"]])
+        run = _subset(case, t)  # documented: only connections named in `inputs` are run and combined
+        cos = {k: C[k](torch.tensor(xs[k][t])) for k in case["conns"] if k in run}
+        comb = _combine_model(case["combine"], [_apply(case["tf"][k], cos[k]) for k in case["conns"] if k in run])
         return {k: N[k](_apply(case["tf"][k], comb), **nkw) for k in case["neurs"]}, cos
     # recurrent serial
     fb_prev = mem.get("fb")
@@ -232,7 +243,7 @@ def run_clear(case):
     spikes_before = spikes_after = 0
     # reference: fresh layer run on the first R inputs -- built per clear position because
     # adaptations learned before the clear are kept (and copied into the fresh layer)
-    for c in range(1, T + 1):
+    for c in range(0, T + 1):  # c = 0: clear() before the very first forward call (top-of-epoch clear)
         with impl("build layer"):
             layer, lc = build(case, True)
         with impl(f"run {c} steps"):
@@ -314,7 +325,8 @@ def layer_case(draw, tier="quick", for_clear=False):
         for j in range(draw(st.integers(1, 3))):
             case["neurs"][f"n{j}"] = _neur(draw, o)
             case["tf"][f"n{j}"] = draw(tfn)
-        case["combine"] = draw(st.sampled_from(["sum", "mean", "prod", "min", "max", "custom", "sum"]))
+        case["combine"] = draw(st.sampled_from(["sum", "mean", "prod", "min", "max", "custom", "sum", "mean"]))
+        case["subset_steps"] = draw(st.lists(st.integers(0, 14), max_size=3, unique=True))
     else:
         i, n, m = draw(shp), draw(shp), draw(shp)
         case["conns"]["ff"] = _conn(draw, i, n)
